@@ -213,7 +213,7 @@ pub fn run_case(ctx: &mut Ctx, rng: &mut Rng, c: &Case) {
             *pv = Some(format!("{} bytes handed out but only {} payload bytes were served; excess: {}", delivered.len(), exp.data.len(), show(&delivered[exp.data.len()..])));
         }
     };
-    let mut first_end: Option<End> = None;
+    let first_end: Option<End>;
     let delivered_all: Vec<u8>;
     let mut after_end_results = 0usize;
     match &c.plan {
@@ -297,7 +297,7 @@ pub fn run_case(ctx: &mut Ctx, rng: &mut Rng, c: &Case) {
     }
     let trace = world.trace(0);
     if trace.spin {
-        ctx.violation("spin-at-eof", descr("more than 10000 reads at end of stream"));
+        ctx.violation("spin-at-eof", descr("more than 8 million reads at end of stream"));
     }
     match &c.fault {
         Fault::None => ctx.count("fault_none", 1),
